@@ -59,6 +59,24 @@ def check(ctx):
     for nm in ("_decimal_constant", "_string_literal"):
         if nm in t.lexer_strings:
             extra[nm] = t.lexer_strings[nm]
+    # ... every other compiled pattern of the package and every pattern handed to re.match / search / fullmatch / compile / sub / split
+    import re as _re
+    for modname in S.MODULES:
+        try:
+            fenv = S.folded(modname).env
+        except Exception:
+            continue
+        mod_ = S.module(modname)
+        for k_, v_ in fenv.items():
+            if isinstance(v_, _re.Pattern) and k_ != "_regex_master":
+                extra.setdefault(k_, v_.pattern)
+        for n_ in ast.walk(mod_.tree):
+            if isinstance(n_, ast.Call) and isinstance(n_.func, ast.Attribute) and isinstance(n_.func.value, ast.Name) and n_.func.value.id == "re" \
+                    and n_.func.attr in ("match", "search", "fullmatch", "compile", "sub", "split", "findall", "finditer") and n_.args:
+                a0 = n_.args[0]
+                pat = a0.value if isinstance(a0, ast.Constant) and isinstance(a0.value, str) else (fenv.get(a0.id) if isinstance(a0, ast.Name) else None)
+                if isinstance(pat, str):
+                    extra.setdefault(a0.id if isinstance(a0, ast.Name) else f"{modname}:{pat[:40]}", pat)
     for nm, pat in extra.items():
         node = R.from_pattern(pat)
         alpha = R.Alphabet(list(R.charsets(node)))
